@@ -875,6 +875,17 @@ func zz_verif_c30Sequential(rec *kit.Rec, n int) {
 					f |= fRevertOpts
 				}
 			case zz_verif_c30MRM:
+				if f&fMRMSkip != 0 {
+					// the accepted same-size heuristic: how often it left a repository tracked
+					// that the caller did not list (evidence for the assumption, not judged)
+					for id := range s2.It {
+						if s2.It[id].Tracked && !zz_verif_c30Has(in.IDs, id) {
+							rec.Count("seq_same_size_skip_left_unlisted_repository_tracked", 1)
+							break
+						}
+					}
+					break
+				}
 				for id := range lastIndexed {
 					if !zz_verif_c30Has(in.IDs, id) {
 						delete(lastIndexed, id)
